@@ -1031,6 +1031,8 @@ def model_cases(ctx, rng):
     for (Lx, Ly, layered) in keys:
         if layered and Lx * Ly > 9:
             continue
+        if Lx * (Ly - 1) + Ly * (Lx - 1) > 13:
+            continue                       # (TLC evaluates the exact value by enumeration: keep it below 2^13 assignments)
         hb = [[2] * Ly for _ in range(Lx)]
         vb = [[2] * Ly for _ in range(Lx)]
         if layered:
